@@ -4,6 +4,7 @@
    tests `avail < sizeof(WBSAVEPOINT)` is the regenerated fact Scan.sp_checks. *)
 Require Import ZArith List Bool. Require Import IW.Lib.CInt IW.Gen.Facts.
 Require Import IW.WAL.Rec IW.WAL.Rec_proofs IW.WAL.Scan IW.WAL.Scan_proofs IW.WAL.Replay IW.WAL.Replay_proofs.
+Require Import IW.WAL.Proto IW.WAL.Proto_proofs.
 Import ListNotations. Local Open Scope Z_scope.
 
 (* a log with three segments, two savepoints and an unfinished tail; an 8-byte main file *)
@@ -107,3 +108,27 @@ Example C05_no_half_write_ex :
   snd (replay_ops false 1 0 (firstn 82 (encode ex_log))) = [ASet 65 0 4] /\
   In (60, RWrite 0 2 [1;2;3]) (offsets ex_log 0).
 Proof. vm_compute. split; [reflexivity | do 4 right; left; reflexivity]. Qed.
+
+(* recovery_independent_of_recovering_config: the outcome of a recovery is a function of the two files only.  A
+   process opened with any options c2 (log-buffer size c_bufsz, checksum checking c_ccrc) recovers a cut log exactly
+   as a process with options c1 does - in particular as the writer's own configuration would.  Proto.recover_open
+   (the model of _recover_wl under options c) does not read c_bufsz: a test of a segment's length against the
+   recovering process's buffer size has no counterpart in the model and is reported by the T2 comparison of
+   checks/C05.py on logs recovered with a smaller buffer than they were written with. *)
+Theorem C05_recovery_independent_of_recovering_config : forall (c1 c2 : pcfg) rs (n : nat) main,
+  wf_log rs = true -> no_reset rs = true -> crc_ok rs = true -> (n <= length (encode rs))%nat ->
+  recover_open c1 (firstn n (encode rs)) main = recover_open c2 (firstn n (encode rs)) main.
+Proof. exact (fun c1 c2 rs n main => recover_open_config_independent c1 c2 rs n main eq_refl). Qed.
+Print Assumptions C05_recovery_independent_of_recovering_config.
+Example C05_recovery_independent_of_recovering_config_ex :
+  recover_open (mkC 4084 true) (firstn 100 (encode ex_log)) ex_main = (VOk, [65;65;1;2;3;0;0;0], [ASet 65 0 4; AWrite 2 [1;2;3]]) /\
+  recover_open (mkC 8388596 false) (firstn 100 (encode ex_log)) ex_main = (VOk, [65;65;1;2;3;0;0;0], [ASet 65 0 4; AWrite 2 [1;2;3]]).
+Proof. vm_compute. split; reflexivity. Qed.
+
+(* ... and it is the savepoint state of C05_replay_cut_is_savepoint_state, whatever the recovering options *)
+Theorem C05_recover_open_is_savepoint_state : forall (c : pcfg) rs (n : nat) main m,
+  wf_log rs = true -> no_reset rs = true -> crc_ok rs = true -> (n <= length (encode rs))%nat ->
+  state_at rs main (last_sp sp_checks rs (Z.of_nat n)) = Some m ->
+  recover_open c (firstn n (encode rs)) main = (VOk, m, ops_before rs 0 (last_sp sp_checks rs (Z.of_nat n))).
+Proof. exact (fun c rs n main m => recover_open_is_savepoint_state c rs n main m eq_refl). Qed.
+Print Assumptions C05_recover_open_is_savepoint_state.
